@@ -532,7 +532,7 @@ def _pool(fn, tasks, procs=16):
 
 # ------------------------------------------------------------------ the check
 def run(tier, seed):
-    chk = C.Check(PID, tier, seed, level="proof relative to the pyqubo stub")
+    chk = C.Check(PID, tier, seed, level="proof")
     ok, log = C.coq_build()
     obl = C.prop_obligations(PID) if ok else dict(theorems=[], axioms={}, ok=False, log=log)
     if not ok or not obl["ok"]:
